@@ -351,6 +351,10 @@ func (d *Decoder) scan(data []byte, atEOF bool) (advance int, token []byte, err 
 
 	// Look for new blocks
 	switch l := startsBlockQuote(data); {
+	case l > 0 && l == len(data) && !atEOF:
+		// The quote start and the whitespace after it run up to the end of the
+		// data we have; more of it may follow, so ask for more data.
+		return 0, nil, nil
 	case l > 0 && !d.quoteStarted:
 		// If we haven't yet consumed our block quote start token, do so.
 		d.mask |= BlockQuote | BlockQuoteStart
@@ -435,21 +439,23 @@ func (d *Decoder) scanPre(data []byte, atEOF bool) (advance int, token []byte, e
 	case idx == 0 && !atEOF && len(data) == len(fence):
 		// We need to make sure it's followed by a newline, so get more data.
 		return 0, nil, nil
-	case idx == 0 && (atEOF || (len(data) > len(fence) && data[len(fence)] == '\n')):
+	case idx == 0 && (len(data) == len(fence) || data[len(fence)] == '\n'):
+		// The fence is the whole line (at the end of the input it may lack the
+		// newline).
 		d.mask |= BlockPreEnd
 		d.clearMask |= BlockPre | BlockPreEnd
 		l := len(fence)
-		if !atEOF {
+		if len(data) > l {
 			l++
 		}
 		return l, data[:l], nil
 	}
-	if atEOF {
-		return len(data), data, nil
-	}
 	newLineIDX := bytes.IndexByte(data, '\n')
 	if newLineIDX >= 0 {
 		return newLineIDX + 1, data[:newLineIDX+1], nil
+	}
+	if atEOF {
+		return len(data), data, nil
 	}
 	return 0, nil, nil
 }
